@@ -90,6 +90,8 @@ func Rewrite(name string, src []byte) ([]byte, int, error) {
 			keep = append(keep, "var _ *exec.Cmd")
 		case "sync":
 			keep = append(keep, "var _ sync.Mutex")
+		case "time":
+			keep = append(keep, "var _ time.Duration")
 		}
 	}
 	// comments are dropped: positions no longer match after the rewrite
@@ -124,6 +126,16 @@ func isPkgSel(e ast.Expr, pkg, name string) bool {
 func (rw *rewriter) replaceExpr(e ast.Expr) ast.Expr {
 	switch x := e.(type) {
 	case *ast.CallExpr:
+		if isPkgSel(x.Fun, "sync", "NewCond") {
+			rw.n++
+			x.Fun = ast.NewIdent("verifNewCond")
+			return x
+		}
+		if isPkgSel(x.Fun, "time", "AfterFunc") {
+			rw.n++
+			x.Fun = ast.NewIdent("verifAfterFunc")
+			return x
+		}
 		if len(x.Args) == 0 {
 			if isPkgSel(x.Fun, "runtime", "Gosched") {
 				rw.n++
@@ -174,6 +186,10 @@ func (rw *rewriter) replaceExpr(e ast.Expr) ast.Expr {
 		if isPkgSel(x, "io", "PipeReader") {
 			rw.n++
 			return ast.NewIdent("verifPipeReader")
+		}
+		if isPkgSel(x, "sync", "Cond") {
+			rw.n++
+			return ast.NewIdent("verifCond")
 		}
 	}
 	return e
@@ -245,16 +261,41 @@ func (rw *rewriter) rewriteList(list []ast.Stmt) []ast.Stmt {
 			rw.n++
 			rw.spawnN++
 			id := fmt.Sprintf("verifChild%d", rw.spawnN)
-			fl, ok := s.Call.Fun.(*ast.FuncLit)
-			if !ok {
-				rw.err = fmt.Errorf("go statement with a non-literal function is not supported by the instrumenter")
-				out = append(out, s)
-				continue
-			}
 			enter := &ast.ExprStmt{X: call("verifEnter", ast.NewIdent(id))}
 			exit := &ast.DeferStmt{Call: call("verifExit")}
-			fl.Body.List = append([]ast.Stmt{enter, exit}, fl.Body.List...)
 			decl := &ast.AssignStmt{Lhs: []ast.Expr{ast.NewIdent(id)}, Tok: token.DEFINE, Rhs: []ast.Expr{call("verifSpawn")}}
+			fl, ok := s.Call.Fun.(*ast.FuncLit)
+			if !ok {
+				// go f(a, b): the function value and the arguments are evaluated here, in the
+				// parent (as the language says), then a literal wrapper enters the schedule
+				// and calls it. Literals and nil stay in place (an untyped constant would get
+				// its default type in a temporary).
+				pre := []ast.Stmt{decl}
+				fn := ast.NewIdent(fmt.Sprintf("%sF", id))
+				pre = append(pre, &ast.AssignStmt{Lhs: []ast.Expr{fn}, Tok: token.DEFINE, Rhs: []ast.Expr{s.Call.Fun}})
+				inner := &ast.CallExpr{Fun: fn, Ellipsis: s.Call.Ellipsis}
+				for i, a := range s.Call.Args {
+					keep := false
+					switch x := a.(type) {
+					case *ast.BasicLit:
+						keep = true
+					case *ast.Ident:
+						keep = x.Name == "nil" || x.Name == "true" || x.Name == "false"
+					}
+					if keep {
+						inner.Args = append(inner.Args, a)
+						continue
+					}
+					tmp := ast.NewIdent(fmt.Sprintf("%sA%d", id, i))
+					pre = append(pre, &ast.AssignStmt{Lhs: []ast.Expr{tmp}, Tok: token.DEFINE, Rhs: []ast.Expr{a}})
+					inner.Args = append(inner.Args, tmp)
+				}
+				wrapper := &ast.FuncLit{Type: &ast.FuncType{Params: &ast.FieldList{}}, Body: &ast.BlockStmt{List: []ast.Stmt{enter, exit, &ast.ExprStmt{X: inner}}}}
+				pre = append(pre, &ast.GoStmt{Call: &ast.CallExpr{Fun: wrapper}})
+				out = append(out, &ast.BlockStmt{List: pre})
+				continue
+			}
+			fl.Body.List = append([]ast.Stmt{enter, exit}, fl.Body.List...)
 			out = append(out, &ast.BlockStmt{List: []ast.Stmt{decl, s}})
 		case *ast.ExprStmt, *ast.AssignStmt:
 			if es, ok := s.(*ast.ExprStmt); ok && isWait(es.X) {
@@ -483,6 +524,8 @@ import (
 	"io"
 	"os/exec"
 	"runtime"
+	"sync"
+	"time"
 )
 
 // VerifHooks are the seams the simulator owns. All fields have pass-through defaults so
@@ -536,6 +579,66 @@ func verifLock(try func() bool) {
 	for !try() {
 		verifH.Yield()
 	}
+}
+
+// verifCond replaces sync.Cond: Wait of the real one re-acquires its Locker with a plain
+// Lock, on which a goroutine is not durably blocked (the fake clock would stand still while
+// the holder sleeps in a yield). Same semantics, same happens-before (Signal before the
+// return of the Wait it wakes), waiters parked on channels, the Locker taken through TryLock.
+type verifCond struct {
+	L  sync.Locker
+	mu sync.Mutex // guards q; never held across a yield
+	q  []chan struct{}
+}
+
+func verifNewCond(l sync.Locker) *verifCond { return &verifCond{L: l} }
+
+func (c *verifCond) Wait() {
+	ch := make(chan struct{})
+	c.mu.Lock()
+	c.q = append(c.q, ch)
+	c.mu.Unlock()
+	c.L.Unlock()
+	<-ch
+	verifH.Yield() // woken: re-enter the seeded schedule
+	if t, ok := c.L.(interface{ TryLock() bool }); ok {
+		verifLock(t.TryLock)
+	} else {
+		c.L.Lock()
+	}
+}
+
+func (c *verifCond) Signal() {
+	var ch chan struct{}
+	c.mu.Lock()
+	if len(c.q) > 0 {
+		ch, c.q = c.q[0], c.q[1:]
+	}
+	c.mu.Unlock()
+	if ch != nil {
+		close(ch)
+	}
+}
+
+func (c *verifCond) Broadcast() {
+	c.mu.Lock()
+	q := c.q
+	c.q = nil
+	c.mu.Unlock()
+	for _, ch := range q {
+		close(ch)
+	}
+}
+
+// verifAfterFunc replaces time.AfterFunc: the function runs in a goroutine of its own, which
+// must be an actor of the schedule (its identity is allocated here, in the parent).
+func verifAfterFunc(d time.Duration, f func()) *time.Timer {
+	id := verifSpawn()
+	return time.AfterFunc(d, func() {
+		verifEnter(id)
+		defer verifExit()
+		f()
+	})
 }
 
 // verifPipe replaces io.Pipe: same semantics (synchronous, each Write blocks until it has
